@@ -61,15 +61,21 @@ def Cut.compare : Cut → Cut → Int
   | .belowNull, .belowNull => 0
   | .belowNull, _ => -1
 
-/-- Spec: the cut lies below the point (`none` = NULL is the lowest point, below every key). -/
+/-- Spec: the cut lies below the point. Points of one column are `Option Int`: `none` = NULL (its
+own lowest point); the key `k` sits at the point `some (2 * k)` (`keyPt`), odd points lie strictly
+between consecutive integer keys, so that the order of points is as fine as the order of cuts
+(Go's cuts range over arbitrary — dense — key types: `(Above 1, Below 2)` is a non-empty range). -/
 def Cut.isBelow : Cut → Option Int → Bool
   | .belowNull, _ => true
   | .aboveNull, v => v.isSome
-  | .below k, some x => decide (k ≤ x)
+  | .below k, some x => decide (2 * k ≤ x)
   | .below _, none => false
-  | .above k, some x => decide (k < x)
+  | .above k, some x => decide (2 * k < x)
   | .above _, none => false
   | .aboveAll, _ => false
+
+/-- The point of a key value. -/
+def keyPt (k : Int) : Option Int := some (2 * k)
 
 /-- Go: `GetMySQLRangeCutMax(ctx, typ, a, b)` with two non-nil cuts. -/
 def cutMax (a b : Cut) : Cut := if a.compare b = -1 then b else a
@@ -230,7 +236,7 @@ def mem : Range → Tuple → Bool
 def asEmpty (r : Range) : Range := r.map (fun _ => ColRange.empty)
 
 /-- Go: `MySQLRange.IsEmpty`. -/
-def isEmpty (r : Range) : Bool := r.isEmpty || r.any ColRange.isEmpty
+def isEmpty (r : Range) : Bool := List.isEmpty r || List.any r ColRange.isEmpty
 
 def all2 (p : ColRange → ColRange → Bool) : Range → Range → Bool
   | a :: as, b :: bs => p a b && all2 p as bs
